@@ -428,6 +428,7 @@ func run(c Case) (pbt.Outcome, error) {
 			if s2 == other {
 				tags2 = map[string]string{"other": "keys"}
 			}
+			beforeDirect := len(cbErrs)
 			if pd := try(func() {
 				switch second {
 				case "counter":
@@ -458,6 +459,11 @@ func run(c Case) (pbt.Outcome, error) {
 				}
 			}); pd != nil && !allowedPanic(pd) {
 				errs.Addf("op %d (%s): the same request made on the reporter directly panicked: %v", oi, op.What, pd)
+			}
+			// it is a registration Prometheus rejects like the one before it (nothing was registered for
+			// it then): every rejected registration is reported, not only the first of its name and keys
+			if observable && expectReject && len(cbErrs) == beforeDirect {
+				errs.Addf("op %d (%s, timerHist=%v): the same rejected registration made again (on the reporter directly) did not reach the error callback", oi, op.What, c.TimerHist)
 			}
 			// a rejected second registration (same kind, other tag keys) must leave the first,
 			// legitimate family exposed with what was recorded on it
@@ -624,7 +630,7 @@ func run(c Case) (pbt.Outcome, error) {
 func TestC17(t *testing.T) {
 	pbt.Main(t, pbt.Prop[Case]{
 		ID: "C17", Name: "prometheus",
-		Rule: "rapid-generated histories (1..30 ops) on a tally root whose cached reporter is the Prometheus reporter on a fresh registry (separator '_', Prometheus sanitizer; timers as summaries or histograms; error callback returning or panicking with a sentinel; in a quarter of the cases the reporter is built through Configuration.NewReporter - harness callback, onError \"none\" where nothing may panic, or the default onError where only the registration error itself may be the panic value): counters (non-negative deltas), gauges (hostile float bits), timers, value and duration histograms with GENERATED strictly increasing finite specs (1..8 bounds from pools of decimals, huge/tiny magnitudes, one-ulp neighbours; durations ns..11 days incl. millisecond-granular bounds above 1 s) and samples on / one ulp or ns above and below / around the bounds, 1..4 tagged scopes with the same tag keys and different values, report passes, pre-registration of counter/gauge/timer families through the reporter's Register* API with the tag keys in either order (before or after first use; values must be exposed as without it), and conflict programs (a name reused for another kind: counter/gauge, timer/histogram, counter/timer, histogram/counter; or with other tag keys) whose result is then used through every method. Oracle after a final pass: Gather() shows counter == sum, gauge == last update (bits), cumulative bucket counts == #samples <= bound with bounds == spec (durations in seconds) and total == #samples, timer count == #values, one family per name and one series per tag-value combination; conflicts: the rejected registration reaches the error callback, the same request made on the reporter directly returns a non-nil usable metric, no panic other than the sentinel, at any point, and a rejected registration with other tag keys leaves the first, accepted family exposed with its values. Non-trivial: a sample equal to a bound, or >=2 series in a family, or a cross-kind/tag-key conflict. Distinct: FNV-64 of the case JSON.",
+		Rule: "rapid-generated histories (1..30 ops) on a tally root whose cached reporter is the Prometheus reporter on a fresh registry (separator '_', Prometheus sanitizer; timers as summaries or histograms; error callback returning or panicking with a sentinel; in a quarter of the cases the reporter is built through Configuration.NewReporter - harness callback, onError \"none\" where nothing may panic, or the default onError where only the registration error itself may be the panic value): counters (non-negative deltas), gauges (hostile float bits), timers, value and duration histograms with GENERATED strictly increasing finite specs (1..8 bounds from pools of decimals, huge/tiny magnitudes, one-ulp neighbours; durations ns..11 days incl. millisecond-granular bounds above 1 s) and samples on / one ulp or ns above and below / around the bounds, 1..4 tagged scopes with the same tag keys and different values, report passes, pre-registration of counter/gauge/timer families through the reporter's Register* API with the tag keys in either order (before or after first use; values must be exposed as without it), and conflict programs (a name reused for another kind: counter/gauge, timer/histogram, counter/timer, histogram/counter; or with other tag keys) whose result is then used through every method. Oracle after a final pass: Gather() shows counter == sum, gauge == last update (bits), cumulative bucket counts == #samples <= bound with bounds == spec (durations in seconds) and total == #samples, timer count == #values, one family per name and one series per tag-value combination; conflicts: the rejected registration reaches the error callback, the same request made on the reporter directly reaches it again and returns a non-nil usable metric, no panic other than the sentinel, at any point, and a rejected registration with other tag keys leaves the first, accepted family exposed with its values. Non-trivial: a sample equal to a bound, or >=2 series in a family, or a cross-kind/tag-key conflict. Distinct: FNV-64 of the case JSON.",
 		Gen:  gen, Run: run, HangAfter: 20 * time.Second,
 	})
 }
